@@ -62,6 +62,20 @@ type fakeCache struct {
 	all      []*fakeInformer
 	regs     []*fakeReg
 	removals int
+	// injected informer faults: the next n RemoveEventHandler / GetInformer calls for a kind fail
+	failRemove map[gvkT]int
+	failGet    map[gvkT]int
+}
+
+// failNext plans informer faults for a kind.
+func (f *fakeCache) failNext(gvk gvkT, removes, gets int) {
+	f.mu.Lock()
+	defer f.mu.Unlock()
+	if f.failRemove == nil {
+		f.failRemove, f.failGet = map[gvkT]int{}, map[gvkT]int{}
+	}
+	f.failRemove[gvk] += removes
+	f.failGet[gvk] += gets
 }
 
 func newFakeCache(s *runtime.Scheme) *fakeCache {
@@ -79,6 +93,10 @@ func (f *fakeCache) GetInformer(ctx context.Context, obj client.Object, opts ...
 func (f *fakeCache) GetInformerForKind(_ context.Context, gvk gvkT, _ ...cache.InformerGetOption) (cache.Informer, error) {
 	f.mu.Lock()
 	defer f.mu.Unlock()
+	if f.failGet[gvk] > 0 {
+		f.failGet[gvk]--
+		return nil, errors.New("injected: cannot get informer")
+	}
 	if i := f.cur[gvk]; i != nil {
 		return i, nil
 	}
@@ -169,6 +187,10 @@ func (i *fakeInformer) RemoveEventHandler(handle toolscache.ResourceEventHandler
 	defer i.fc.mu.Unlock()
 	if r.inf != i {
 		return nil
+	}
+	if i.fc.failRemove[i.gvk] > 0 {
+		i.fc.failRemove[i.gvk]--
+		return errors.New("injected: cannot remove event handler")
 	}
 	r.removed = true
 	return nil
